@@ -305,7 +305,7 @@ def run_twoport_src(case):
                 try:
                     mdl = mk().twoport(1, 0, 3, 2, model=X)
                     res['tpmodel'][X] = {'cls': type(mdl).__name__, 'M': mat(getattr(mdl, X + 'params'), point),
-                                         'src': [sup(getattr(mdl, own[X][0]), point), sup(getattr(mdl, own[X][1]), point)]}
+                                         'src': [rat(getattr(mdl, own[X][0]), point), rat(getattr(mdl, own[X][1]), point)]}
                 except CaseTimeout:
                     raise
                 except Exception as e:
